@@ -166,3 +166,96 @@ Proof.
   - change (linked (x :: y :: S' ++ [a])) in HL. change (linked (x :: y :: S' ++ [a; b])).
     rewrite linked_cons2 in HL. rewrite linked_cons2. destruct HL as (H1 & H2 & H3). auto.
 Qed.
+
+(* ---- committing a list of sealed segments followed by a brand-new tail ---- *)
+Lemma hd_min_app S s t : hd_min (S ++ [s]) t = hd_min S s.
+Proof. unfold hd_min. destruct S; reflexivity. Qed.
+
+Lemma tail_es_missing d s : lookup (name_of s) (dk_files d) = None -> tail_es d s = [].
+Proof. intros H. unfold tail_es, file_ents. rewrite H. apply skipn_nil. Qed.
+
+Lemma commit_newtail c nb d nid S' base :
+  cfg_ok c -> DIs c nb d ->
+  (forall ps, dk_meta d = Some ps -> ps_next_id ps <= nid) -> nid + 1 <= nb ->
+  Forall (seg_wf c nid) S' -> linked (S' ++ [new_segment c nid base]) ->
+  Forall (sealed_ok d) S' -> 1 <= base -> base < two64 ->
+  let si := new_segment c nid base in
+  let d1 := apply_act d (ACommit {| ps_next_id := nid + 1; ps_segs := S' ++ [si] |}) in
+  DIs c nb d1 /\ lookup (name_of si) (dk_files d1) = None /\
+  dread d1 = slog_of (hd_min S' si) (sealed_es d S') /\
+  dread (unpend d1) = slog_of (hd_min S' si) (sealed_es d S').
+Proof.
+  intros Hc HD Hn Hnb Hwf Hl Hso Hb1 Hb2 si d1.
+  assert (Hfresh : lookup (name_of si) (dk_files d) = None).
+  { destruct (lookup (name_of si) (dk_files d)) eqn:E; [|reflexivity]. exfalso.
+    unfold DIs in HD. destruct HD as (_ & HD). destruct (dk_meta d) as [ps|] eqn:Hm.
+    - destruct HD as (_ & Hid & _). specialize (Hid _ _ E). specialize (Hn ps eq_refl). cbn in Hid. lia.
+    - rewrite HD in E. discriminate. }
+  assert (HD1 : DIs c nb d1).
+  { apply DIs_commit; auto.
+    - intros ps Hm. specialize (Hn ps Hm). lia.
+    - apply Forall_app. split.
+      + eapply Forall_impl; [|exact Hwf]. intros s Hs. eapply seg_wf_mono; [|exact Hs]. lia.
+      + constructor; [apply new_segment_wf; auto|constructor].
+    - apply tail_ok_missing; auto. }
+  split; [exact HD1|]. split; [exact Hfresh|].
+  assert (Hm1 : dk_meta d1 = Some {| ps_next_id := nid + 1; ps_segs := S' ++ [si] |}) by reflexivity.
+  assert (Hte : tail_es d1 si = []) by (apply tail_es_missing; exact Hfresh).
+  split.
+  - rewrite (dread_decomp c nb d1 _ S' si HD1 Hm1 eq_refl). rewrite Hte, app_nil_r.
+    f_equal.
+  - pose proof (DIs_unpend _ _ _ HD1) as HDu.
+    rewrite (dread_decomp c nb (unpend d1) _ S' si HDu Hm1 eq_refl).
+    assert (Hte' : tail_es (unpend d1) si = []).
+    { apply tail_es_missing. rewrite lookup_unpend. cbn [d1 apply_act dk_files]. rewrite Hfresh. reflexivity. }
+    rewrite Hte', app_nil_r. f_equal.
+    change (sealed_es (unpend d1) S' = sealed_es d1 S').
+    apply sealed_es_unpend.
+    eapply Forall_sealed_ext; [|exact Hso]. reflexivity.
+Qed.
+
+(* sealing the tail in the metadata *)
+Definition seal_info (t : seginfo) (mx istart : N) : seginfo :=
+  {| si_id := si_id t; si_base := si_base t; si_min := si_min t; si_max := mx; si_codec := si_codec t;
+     si_index_start := istart; si_sealed := true; si_size_limit := si_size_limit t |}.
+
+Lemma seal_info_wf c nid t mx i : seg_wf c nid t -> seg_wf c nid (seal_info t mx i).
+Proof. unfold seg_wf, seal_info. cbn. tauto. Qed.
+
+Lemma sealed_ok_of_tail c d t f mx i :
+  tail_ok c d t -> lookup (name_of t) (dk_files d) = Some f -> df_pend f = None -> df_seal f <> 0 ->
+  si_min t <= mx -> mx + 1 <= si_base t + llen (df_ents f) ->
+  sealed_ok d (seal_info t mx i).
+Proof.
+  intros (Hu & Ht) Hf Hp Hse Hmin Hmx. rewrite Hf in Ht.
+  destruct Ht as ((F1 & F2 & F3 & F4 & F5) & _ & Hd & _).
+  unfold sealed_ok. cbn [seal_info si_sealed si_min si_max si_base].
+  split; [reflexivity|]. split; [exact Hmin|]. exists f.
+  change (name_of (seal_info t mx i)) with (name_of t).
+  split; [exact Hf|]. specialize (F5 Hse).
+  split; [destruct (df_dir f); [reflexivity|exfalso; apply F5; apply Hd; reflexivity]|].
+  split; [exact Hp|]. split; [apply F4; exact F5|exact Hmx].
+Qed.
+
+Lemma seg_visible_seal_info d t mx i :
+  1 <= si_base t -> si_base t <= si_min t -> si_min t <= mx ->
+  seg_visible 0 d (seal_info t mx i) = firstn (N.to_nat (mx - si_min t + 1)) (tail_es d t).
+Proof.
+  intros Hb Hbm Hm. unfold seg_visible, tail_es. cbn [seal_info si_sealed si_max si_min si_base].
+  change (name_of (seal_info t mx i)) with (name_of t).
+  destruct ((mx =? 0) || (mx <? si_min t)) eqn:E; [lia|reflexivity].
+Qed.
+
+Lemma tail_es_length c d t f :
+  si_base t <= si_min t -> tail_ok c d t -> lookup (name_of t) (dk_files d) = Some f ->
+  llen (tail_es d t) + si_min t = si_base t + llen (cur_ents f) \/
+  (llen (cur_ents f) = 0 /\ tail_es d t = []).
+Proof.
+  intros Hbm (Hu & Ht) Hf. rewrite Hf in Ht. destruct Ht as (_ & _ & _ & _ & He & _).
+  pose proof (llen_df_le_cur f) as Hle.
+  unfold tail_es, file_ents. rewrite Hf.
+  destruct (llen (cur_ents f) =? 0) eqn:Z.
+  - right. split; [lia|]. apply skipn_all2. unfold llen in Z. lia.
+  - left. unfold llen. rewrite skipn_length. unfold llen in *.
+    destruct (N.of_nat (length (df_ents f)) =? 0) eqn:Z2; lia.
+Qed.
